@@ -62,10 +62,15 @@ static void *must_sym(const char *name) {
 // ------------------------------------------------------------------ watchdog
 static thread_local int tl_watch = 0;
 static thread_local uint64_t tl_watch_hits = 0;
+static thread_local uint64_t tl_clock_hits = 0;
 static thread_local char tl_watch_what[96];
 static inline void watch_hit(const char *what) {
     if (tl_watch) { tl_watch_hits++; snprintf(tl_watch_what, sizeof tl_watch_what, "%s", what); }
 }
+// clocks are not entropy: FFTW's planner reads the time of day when a thread plans its first transform.  Counted, not judged;
+// a clock used as a seed shows in the re-seeding experiments.
+static inline void clock_hit(const char *) { if (tl_watch) tl_clock_hits++; }
+uint64_t watch_clock_reads() { return tl_clock_hits; }
 void watch_begin() { tl_watch++; if (tl_watch == 1) { tl_watch_hits = 0; tl_watch_what[0] = 0; } }
 uint64_t watch_end(std::string *what) {
     if (tl_watch > 0) tl_watch--;
@@ -308,16 +313,16 @@ extern "C" int getentropy(void *b, size_t n) {
     static int (*real)(void *, size_t) = (int (*)(void *, size_t)) dlsym(RTLD_NEXT, "getentropy");
     watch_hit("getentropy"); return real(b, n);
 }
-extern "C" time_t time(time_t *t) { static time_t (*real)(time_t *) = (time_t (*)(time_t *)) dlsym(RTLD_NEXT, "time"); watch_hit("time"); return real(t); }
+extern "C" time_t time(time_t *t) { static time_t (*real)(time_t *) = (time_t (*)(time_t *)) dlsym(RTLD_NEXT, "time"); clock_hit("time"); return real(t); }
 extern "C" int clock_gettime(clockid_t c, struct timespec *ts) {
     static int (*real)(clockid_t, struct timespec *) = (int (*)(clockid_t, struct timespec *)) dlsym(RTLD_NEXT, "clock_gettime");
-    watch_hit("clock_gettime"); return real(c, ts);
+    clock_hit("clock_gettime"); return real(c, ts);
 }
 extern "C" int gettimeofday(struct timeval *tv, void *tz) {
     static int (*real)(struct timeval *, void *) = (int (*)(struct timeval *, void *)) dlsym(RTLD_NEXT, "gettimeofday");
-    watch_hit("gettimeofday"); return real(tv, tz);
+    clock_hit("gettimeofday"); return real(tv, tz);
 }
-extern "C" clock_t clock(void) { static clock_t (*real)(void) = (clock_t (*)(void)) dlsym(RTLD_NEXT, "clock"); watch_hit("clock"); return real(); }
+extern "C" clock_t clock(void) { static clock_t (*real)(void) = (clock_t (*)(void)) dlsym(RTLD_NEXT, "clock"); clock_hit("clock"); return real(); }
 static inline void watch_path(const char *p) { if (p && (strstr(p, "random") || strstr(p, "/dev/hwrng"))) watch_hit("open(/dev/*random)"); }
 extern "C" int open(const char *path, int flags, ...) {
     static int (*real)(const char *, int, ...) = (int (*)(const char *, int, ...)) dlsym(RTLD_NEXT, "open");
